@@ -156,26 +156,26 @@ func runFormat(r *hv.Rand, f *xw.Format, nValues, mutPerValue, nRandom int) {
 
 // ---------------------------------------------------------------- frames
 
-func coqFlags(v tubes.VerifFrame) string {
+func coqFlags(v tubes.VerifWireFrame) string {
 	return hv.App("Fl", hv.B(v.REQ), hv.B(v.RESP), hv.B(v.REL), hv.B(v.ACK), hv.B(v.FIN), hv.B(v.RTR))
 }
-func coqFrame(v tubes.VerifFrame) string {
+func coqFrame(v tubes.VerifWireFrame) string {
 	return hv.App("Fr", hv.N(uint64(v.AckNo)), hv.N(uint64(v.FrameNo)), hv.N(uint64(v.DataLength)), coqFlags(v), hv.N(uint64(v.TubeID)), xw.CoqBytes(v.Data))
 }
 func coqIFrame(v tubes.VerifInitFrame) string {
 	fl := hv.App("Fl", hv.B(v.REQ), hv.B(v.RESP), hv.B(v.REL), hv.B(v.ACK), hv.B(v.FIN), hv.B(v.RTR))
 	return hv.App("Ifr", hv.N(uint64(v.FrameNo)), hv.N(uint64(v.TubeID)), hv.N(uint64(v.TubeType)), xw.CoqBytes(v.Data), hv.N(uint64(v.DataLength)), fl)
 }
-func eqFrame(a, b tubes.VerifFrame) bool {
+func eqFrame(a, b tubes.VerifWireFrame) bool {
 	return a.AckNo == b.AckNo && a.FrameNo == b.FrameNo && a.DataLength == b.DataLength && a.TubeID == b.TubeID &&
 		a.REQ == b.REQ && a.RESP == b.RESP && a.REL == b.REL && a.ACK == b.ACK && a.FIN == b.FIN && a.RTR == b.RTR && bytes.Equal(a.Data, b.Data)
 }
 
 var u32s = []uint32{0, 1, 2, 255, 256, 65535, 65536, 1<<31 - 1, 1 << 31, 1<<32 - 2, 1<<32 - 1}
 
-func genFrame(r *hv.Rand) tubes.VerifFrame {
+func genFrame(r *hv.Rand) tubes.VerifWireFrame {
 	n := hv.Pick(r, []int{0, 0, 1, 2, 11, 12, 13, 100, 1000})
-	f := tubes.VerifFrame{AckNo: hv.Pick(r, u32s), FrameNo: hv.Pick(r, u32s), TubeID: byte(r.Intn(256)), Data: xw.PatternD(n, byte(r.U64()), byte(r.Intn(4)))}
+	f := tubes.VerifWireFrame{AckNo: hv.Pick(r, u32s), FrameNo: hv.Pick(r, u32s), TubeID: byte(r.Intn(256)), Data: xw.PatternD(n, byte(r.U64()), byte(r.Intn(4)))}
 	m := r.Intn(64)
 	f.REQ, f.RESP, f.REL, f.ACK, f.FIN, f.RTR = m&1 != 0, m&2 != 0, m&4 != 0, m&8 != 0, m&16 != 0, m&32 != 0
 	f.DataLength = uint16(n)
@@ -192,7 +192,7 @@ func exact(b []byte) []byte { // capacity = length, so Go's cap-based slice chec
 }
 
 func fromBytesCase(b []byte, class string) {
-	var got tubes.VerifFrame
+	var got tubes.VerifWireFrame
 	var err error
 	p, msg := hv.Catch(func() { got, err = tubes.VerifFromBytes(exact(b)) })
 	code := xw.OK
@@ -202,7 +202,7 @@ func fromBytesCase(b []byte, class string) {
 		vd = bad("C18:frame-decoder-panics", "fromBytes panicked on a %d-byte buffer: %s", len(b), msg)
 	} else if err != nil {
 		code = xw.ERR
-		got = tubes.VerifFrame{}
+		got = tubes.VerifWireFrame{}
 	} else {
 		// stability: re-encoding what was parsed parses to the same frame
 		again, err2 := tubes.VerifFromBytes(tubes.VerifFrameToBytes(got))
